@@ -65,6 +65,10 @@ def expand(item, seed):
                         if stratum != "responsive":
                             sc["pong"]["stop_after"] = stratum
                         yield sc
+                        if traffic == "none" and i in (1, 3, 8):
+                            yield dict(sc, second_conn="second_run")
+                            if stratum == "responsive":
+                                yield dict(sc, second_conn="reconnect")
     elif item["kind"] == "refused":
         vals_i = (-1, 0, 0.5, 1, 2, 5)
         vals_t = (-1, 0, 0.5, 1, 2, 5, None)
@@ -105,6 +109,13 @@ def gen(rng):
         offs = [0, 1, -1, 2, S // 1024]
         tr["instants"] = sorted(set(max(1, k * it + (tt or 0) * rng.randrange(0, 2) + rng.choice(offs)) for k in range(1, 8)))
     sc["traffic"] = tr
+    if rng.random() < 0.12:
+        sc["tls"] = True
+    r2 = rng.random()
+    if r2 < 0.15:
+        sc["second_conn"] = "second_run"      # the judged connection belongs to a second run_forever of the same object
+    elif r2 < 0.3 and pong.get("stop_after") is None:
+        sc["second_conn"] = "reconnect"       # the judged connection is a re-established one
     sc["policy"] = rng.choice(({"kind": "coop", "p_call": 0.0}, {"kind": "coop", "p_call": 0.3},
                                {"kind": "prob", "p_line": 1 / 64, "p_call": 0.3}, {"kind": "prob", "p_line": 1 / 8, "p_call": 0.3},
                                {"kind": "pct", "d": 2, "len": 4000},
@@ -163,19 +174,38 @@ def run(sc, choices=None):
     if pong.get("stop_after") is not None:
         on_ping["stop_after"] = int(pong["stop_after"])
     cbs = {n: {"do": "ok"} for n in ("on_open", "on_error", "on_close", "on_pong")}
-    asc = {"conns": [{"script": script, "on_ping": on_ping, "on_close": {"mode": "reply"}}], "callbacks": cbs,
-           "run": {"ping_interval": it, "ping_timeout": tt, "ping_payload": payload}, "policy": sc.get("policy"),
+    judged = {"script": script, "on_ping": on_ping, "on_close": {"mode": "reply"}}
+    second_conn = sc.get("second_conn") if not refused else None
+    if second_conn not in (None, "reconnect", "second_run"):
+        raise InvalidScenario("second_conn")
+    if second_conn == "reconnect" and silent:
+        raise InvalidScenario("a silent peer behind a reconnect interval never ends the run")
+    conns = [judged]
+    extra_run = {}
+    extra = {}
+    if second_conn == "reconnect":
+        conns = [{"script": [{"t": it // 3, "end": "eof"}], "on_ping": {"mode": "pong"}}, judged]
+        extra_run["reconnect"] = S // 2
+    elif second_conn == "second_run":
+        conns = [{"script": [{"t": it // 3, "hex": R.encode_frame(1, 8, b"\x03\xe8").hex()}], "on_ping": {"mode": "pong"}}]
+        extra = {"runs": 2, "second": {"conns": [judged]}}
+    asc = {"conns": conns, "callbacks": cbs,
+           "run": {"ping_interval": it, "ping_timeout": tt, "ping_payload": payload, "tls": bool(sc.get("tls")), **extra_run}, "policy": sc.get("policy"),
            "seed": sc.get("seed", 1), "time_cap_s": int(horizon / S) + 200, "linger": 3 * it + S if not refused else 0,
            "step_cap": 1_500_000}
+    asc.update(extra)
     out = run_app(asc, choices)
     w = out["world"]
-    res.absorb(w)
-    run_ = out["runs"][0]
+    res.absorb(w, exclude_kinds=("send", "recv", "deliver", "recv_call") if sc.get("tls") else ())
+    run_ = out["runs"][-1]
+    if second_conn == "second_run" and len(out["runs"]) < 2:
+        res.violate("run_does_not_end", "first_run", f"first run did not finish: {out['runs'][0].aborted}")
+        return _fin(res, sc, "first_run", 0)
     SLACK = S // 16 + w.k.stall_ticks + w.k.stalls  # injected 'slow thread' time is not the library's doing
     i_s, t_s = it / S, (None if tt is None else tt / S)
     ratio = "no_timeout" if tt is None else ("interval<=2*timeout" if it <= 2 * tt else "interval>2*timeout")
     stratum = "refused" if refused else ("silent" if silent else "responsive")
-    ctx = f"{stratum}/{ratio}"
+    ctx = f"{stratum}/{ratio}"  # (the judged connection may be a re-established one or belong to a second run: see detail)
     if refused:
         ok = run_.exc is not None and isinstance(run_.exc, w.ws.WebSocketException)
         if not ok:
@@ -191,7 +221,9 @@ def run(sc, choices=None):
     if run_.exc is not None:
         res.violate("run_forever_raised", ctx, f"{type(run_.exc).__name__}: {run_.exc}")
         return _fin(res, sc, ctx, 0)
-    peer = out["peers"][0] if out["peers"] else None
+    peer = out["peers"][-1] if out["peers"] else None
+    if second_conn and len(out["peers"]) < 2:
+        peer = None
     if peer is None or peer.open_time is None:
         res.violate("no_connection", ctx, "peer never saw the handshake")
         return _fin(res, sc, ctx, 0)
@@ -223,7 +255,8 @@ def run(sc, choices=None):
         res.violate("pings_after_run_ended", ctx, f"pings after the end of the run: {len(late)}; threads alive at return {run_.live_threads_at_return}")
         return _fin(res, sc, ctx, len(pings))
     # ---- detection
-    touts = [t for t in run_.trace if t[2] == "on_error" and t[3] and t[3][0][0] == "exc" and t[3][0][1] == "WebSocketTimeoutException"]
+    touts = [t for t in run_.trace if t[2] == "on_error" and t[3] and t[3][0][0] == "exc" and t[3][0][1] == "WebSocketTimeoutException"
+             and t[1] >= t0]
     if silent:
         k = int(pong["stop_after"])
         if len(pings) > k:
@@ -247,6 +280,10 @@ def run(sc, choices=None):
 
 
 def _fin(res, sc, ctx, npings):
+    if sc.get("second_conn"):
+        for v in res.violations:
+            if "[judged connection:" not in v["detail"]:
+                v["detail"] = f"[judged connection: {sc['second_conn']}] " + v["detail"]
     res.sig = repr((sc["interval"], sc.get("timeout"), ctx, (sc.get("pong") or {}).get("mode"), (sc.get("traffic") or {}).get("mode"),
                     res.sched if res.switches else ""))
     res.nontrivial = npings > 0
@@ -256,4 +293,4 @@ def _fin(res, sc, ctx, npings):
 
 
 def sample_view(sc, r):
-    return {k: sc.get(k) for k in ("interval", "timeout", "payload", "pong", "traffic", "pings", "policy")}
+    return {k: sc.get(k) for k in ("interval", "timeout", "payload", "pong", "traffic", "pings", "policy", "tls", "second_conn")}
